@@ -90,7 +90,7 @@ def lifecycle_descs(tier, seed, hib_values=(False, True), objs=("twofunnel", "pl
     # (b) deviation-bounded over G, L and S
     shapes = LIFE_SHAPES_Q if tier == "quick" else LIFE_SHAPES_Q + [tuple(x) for x in rep_shapes()]
     k = 0
-    lscs = [None, {"kind": "metaepoch", "m": 2}, "allchildren", {"kind": "steadiness", "n": 2, "dev": 0.5}]
+    lscs = [None, {"kind": "metaepoch", "m": 2}, "allchildren", {"kind": "steadiness", "n": 2, "dev": 0.5}, {"kind": "steadiness", "n": 2, "dev": 0.0}]
     for eng in shapes:
         for hib in hib_values:
             for mx in maximize:
@@ -102,6 +102,10 @@ def lifecycle_descs(tier, seed, hib_values=(False, True), objs=("twofunnel", "pl
                                             gsc=gsc, maximize=mx, obj=FLAT_FOR.get(tuple(eng), objs[k % len(objs)]), print_at_boundaries=bool(k % 4 == 1),
                                             sprout={"kind": "scripted", "L": L, "default": 1 + (k % 2), "demelimit": dl})))
                 k += 1
+    # 'stop only on exact steadiness' (max_deviation = 0.0) on objectives whose values differ in the last digits only
+    for j, eng in enumerate([("SEA", "DE"), ("DE", "SEA", "CMAf"), ("SHADE", "GA")]):
+        out.append(("bounded", dict(engines=list(eng), gens=1, Mh=5, hib=False, seed=s + j, choices="GLS", lsc=[{"kind": "steadiness", "n": 2, "dev": 0.0}] * len(eng),
+                                    gsc={"kind": "horizon"}, maximize=bool(j % 2), obj="tiny_offset", sprout={"kind": "scripted", "L": 2, "default": 1})))
     # middle-level demes that stop when all their children have stopped, several siblings per level
     for j, eng in enumerate([("SEA", "DE", "CMAf"), ("DE", "SEA", "SHADE"), ("LHS", "GA", "DE")]):
         for hib in hib_values:
@@ -143,6 +147,18 @@ def mechanism_descs(tier, seed):
     return out
 
 
+def reuse_sequences(tier, seed):
+    """Pairs of worlds built from the SAME mechanism / stop-condition objects (second tree after a first one)."""
+    seqs = []
+    md = mechanism_descs(tier, seed)
+    for i in range(0, len(md) - 1, 2 if tier == "quick" else 1):
+        a = dict(md[i], choices="", reuse_components=True)
+        b = dict(a, seed=a["seed"] + 5)
+        c = dict(a, seed=a["seed"] + 9, maximize=not a.get("maximize", False))
+        seqs.append([a, b, c])
+    return seqs
+
+
 def lifecycle_units(tier, seed, mechanisms=True, **kw):
     us = []
     b = 2 if tier == "quick" else 3
@@ -154,6 +170,8 @@ def lifecycle_units(tier, seed, mechanisms=True, **kw):
     if mechanisms:
         for desc in mechanism_descs(tier, seed):
             us += split_units(desc, 1 if tier == "quick" else 2, "GL", {"mode": "mechanism"})
+        for seq in reuse_sequences(tier, seed):
+            us.append({"kind": "sequence", "descs": seq})
     return us
 
 
